@@ -20,7 +20,11 @@ Correspondence (local steps, model evaluated inside Coq):
   * index sets from the implementation's reported p / t matrices, alpha parsing and
     only_larger flag: pairwise_indices(_alt), pairwise_means_indices(_alt);
   * the legacy path (pairwise_significance_tests[c].t_stats) from the displayed proportions,
-    columns_margin (weighted), columns_base and columns_squared_base.
+    columns_margin (weighted), columns_base and columns_squared_base;
+  * p-values UP TO the CDF (Model/PairwiseP.v; c13_probe.py): on half of the cases the implementation is
+    read once more with scipy's t.cdf replaced by the exact rational stand-in x^2/(x^2+df^2+1) and its
+    p-value matrices are compared with pw_pblock / welch_pblock / ov_pblock evaluated in Coq with the
+    same function (the abs, the t block, the degrees of freedom, 2(1-.), the guards: independent of scipy).
 Oracles on the implementation alone: antisymmetry t(a,b) = -t(b,a), symmetry of p, t = 0 (p = 1)
 for a column against itself, the column itself never reported (pairwise_indices(_alt),
 pairwise_means_indices(_alt) and the legacy summary_pairwise_indices /
@@ -50,11 +54,13 @@ from harness import core, gen, impl
 from harness.core import g_mat, g_vec, g_Z, g_nat, g_bool, g_list
 from harness.props import c12_util as U
 from harness.props import c13_util as V
+from harness.props import c13_probe as PR
 
 PID = "C13"
 IMPORTS = """From Coq Require Import QArith ZArith List Bool.
 From CC Require Import Base.XQ Base.Render Base.ListX Model.Pairwise.
-Import ListNotations."""
+%s
+Import ListNotations.""" % PR.IMPORT_LINE
 
 
 # ------------------------------------------------------------------------------------
@@ -219,6 +225,12 @@ def impl_run(case):
         return {"error": gb}
     B = gb[1]
     io["B"] = read_run(B, stream, False)
+    if PR.wanted(case):
+        gp = PR.probe_impl(case)
+        if gp[0] == "ok" and _ok(gp[1].get("row_order")) and _ok(gp[1].get("column_order")):
+            io["probe"] = gp[1]
+        else:
+            io["probe_error"] = gp
     if stream in ("cols", "mr_plain"):
         io["B"]["legacy_t"] = impl.guarded(lambda: [np.asarray(x.t_stats, dtype=float) for x in B.pairwise_significance_tests])
         for n in ("column_proportions", "columns_base", "columns_margin", "columns_squared_base"):
@@ -270,11 +282,12 @@ def build_terms(case, io):
         sq = A["sq_blocks"][1]
         if sq is None:
             Nb = blocks_of(io, A, "column_unweighted_bases")
-            nterm = g_blocks(Nb)
+            nparts = [g_mat(Nb[x][y]) for x in (0, 1) for y in (0, 1)]
         else:
             W = blocks_of(io, A, "column_weighted_bases")
-            nterm = " ".join("(eff_block %s %s)" % (g_mat(W[x][y]), g_mat(_shape_like(sq[x][y], W[x][y])))
-                             for x in (0, 1) for y in (0, 1))
+            nparts = ["(eff_block %s %s)" % (g_mat(W[x][y]), g_mat(_shape_like(sq[x][y], W[x][y])))
+                      for x in (0, 1) for y in (0, 1)]
+        nterm = " ".join(nparts)
         io["has_sq"] = sq is not None
         t = ("flat_map (fun sel => flat_map r_mat (pw_all sel %s %s)) %s"
              % (g_blocks(P), nterm, g_list([g_Z(s) for s in sels])))
@@ -288,6 +301,8 @@ def build_terms(case, io):
             Nf = U.full_from_blocks([[_eff_exact(We[x][y], SQe[x][y]) for y in (0, 1)] for x in (0, 1)])
         bd = {s: _bd_props(Pf, Nf, lambda i, s=s: s if s >= 0 else nc + ncs + s, io) for s in sels}
         jobs.append(("matrix", t, {"sels": sels, "bd": bd}))
+        if io.get("probe") is not None:
+            jobs.append(("probe-matrix", PR.matrix_term(g_blocks(P), nparts, sels), {"sels": sels, "bd": bd}))
         # legacy path on the displayed arrays of run B
         if all(_ok(B.get(n)) for n in ("column_proportions", "columns_base", "columns_margin",
                                        "columns_squared_base", "legacy_t")):
@@ -322,6 +337,8 @@ def build_terms(case, io):
         t = ("flat_map (fun sel => r_mat (welch_tblock sel %s %s %s) ++ r_mat (welch_dfblock sel %s %s)) %s"
              % (g_mat(M), g_mat(S), g_mat(Nn), g_mat(S), g_mat(Nn), g_list([g_Z(s) for s in sels])))
         jobs.append(("welch", t, {"sels": sels}))
+        if io.get("probe") is not None:
+            jobs.append(("probe-welch", PR.welch_term(M, S, Nn, sels), {"sels": sels}))
     else:  # overlap
         if not _ok(A.get("column_proportions")):
             return None
@@ -343,6 +360,9 @@ def build_terms(case, io):
             + [(S[0], N[0]) if S and N else None] * nrs
         bd = {a: _bd_overlap(CPf, SNrows, a, io) for a in sels}
         jobs.append(("overlap", t, {"sels": sels, "bd": bd}))
+        if io.get("probe") is not None:
+            jobs.append(("probe-overlap", PR.overlap_term(P[0][0], gS, gN, P[1][0], gS1, gN1, sels),
+                         {"sels": sels, "bd": bd}))
     # index sets from the reported p / t of run B
     if all(_ok(x) for x in B["t"]) and all(_ok(x) for x in B["p"]):
         # (own display position, (p matrix, t matrix)) of every displayed column
@@ -585,6 +605,25 @@ def compare(case, io, jobs, results, rep):
                 df = U.full_from_blocks([[d0, e(nr)], [d1, e(nrs)]])
                 io["n_finite"] += cmp_display(io, B, c, tf, df, fails, "overlap", diag_payload=sel,
                                               bd_full=aux["bd"].get(sel))
+        elif kind == "probe-matrix":
+            shp = [(nr, nc), (nr, ncs), (nrs, nc), (nrs, ncs)]
+            for c, sel in enumerate(aux["sels"]):
+                pb = [_fix(d.mat(), *shp[q]) for q in range(4)]
+                pf = U.full_from_blocks([[pb[0], pb[1]], [pb[2], pb[3]]])
+                PR.compare_full(io, c, pf, fails, "probe-matrix", bd_full=aux["bd"].get(sel))
+        elif kind == "probe-welch":
+            nanb = lambda a, b: [["nan"] * b for _ in range(a)]
+            for c, sel in enumerate(aux["sels"]):
+                pb = _fix(d.mat(), nr, nc)
+                pf = U.full_from_blocks([[pb, nanb(nr, ncs)], [nanb(nrs, nc), nanb(nrs, ncs)]])
+                PR.compare_full(io, c, pf, fails, "probe-welch")
+        elif kind == "probe-overlap":
+            e = lambda a: [[] for _ in range(a)]
+            for c, sel in enumerate(aux["sels"]):
+                p0 = _fix(d.mat(), nr, nc)
+                p1 = _fix(d.mat(), nrs, nc)
+                pf = U.full_from_blocks([[p0, e(nr)], [p1, e(nrs)]])
+                PR.compare_full(io, c, pf, fails, "probe-overlap", bd_full=aux["bd"].get(sel))
         elif kind == "legacy":
             L = B["legacy_t"][1]
             for c in range(aux["n"]):
@@ -615,7 +654,9 @@ def compare(case, io, jobs, results, rep):
     if parse is not None:
         av = A.get("alpha_values")
         if parse[0] == "ok":
-            if not (_ok(av) and close_p(av[1][0], float(parse[1]), 0.0)
+            if not (_ok(av) and isinstance(av[1], (tuple, list)) and len(av[1]) == 2
+                    and isinstance(av[1][0], float) and (av[1][1] is None or isinstance(av[1][1], float))
+                    and close_p(av[1][0], float(parse[1]), 0.0)
                     and ((av[1][1] is None) == (parse[2] is None))
                     and (parse[2] is None or close_p(av[1][1], float(parse[2]), 0.0))):
                 fails.append(("alpha-parse", {"impl": av, "model": parse}))
@@ -643,6 +684,14 @@ def compare(case, io, jobs, results, rep):
         rep.dist("zero_variance_boundary_disagreement:" + kk, k)
     for path, k in sorted(io["t_cells"].items()):
         rep.dist("t_cells_compared:" + path, k)
+    if io.get("probe_cells"):
+        rep.dist("probe_cdf_p_cells_compared", io["probe_cells"])
+        rep.dist("cases_with_probe_cdf_leg")
+    if io.get("probe_bd_skipped"):
+        rep.cov["skipped_near_threshold"] += io["probe_bd_skipped"]
+        rep.dist("probe_cdf_p_cells_skipped_zero_variance_boundary", io["probe_bd_skipped"])
+    if io.get("probe_error") is not None:
+        rep.dist("probe_cdf_leg_unavailable")
     # relational oracles on the implementation alone
     _oracles(case, io, fails, rep)
     return fails
@@ -990,6 +1039,12 @@ def run(tier, seed):
         "threshold decisions p < alpha are evaluated exactly on the reported float p (decisions within 1e-9 of "
         "alpha that disagree are skipped and counted)",
         "float64 vs exact rationals: relative tolerance 1e-9 on t*|t|",
+        "p-values up to the CDF (Model/PairwiseP.v): on every second case the implementation is read once more "
+        "with the module-level name `t` of cr.cube.matrix.measure (scipy.stats.t) replaced, for the duration of "
+        "that read only, by an object whose cdf(x, df) is the exact rational function x^2/(x^2+df^2+1); the "
+        "p-value matrices are compared (absolute tolerance 1e-9) with pw_pblock / welch_pblock / ov_pblock "
+        "evaluated in Coq with the same function cdf_probe; zero-variance boundary cells are skipped and "
+        "counted (probe_cdf_p_cells_skipped_zero_variance_boundary)",
         "zero-variance boundary (IEEE rounding, a stated modelling gap): where the exact variance under the "
         "square root cancels to within 1e-12 of the sum of the absolute values of its terms, float64 and "
         "exact arithmetic legitimately give different members of {inf, NaN, 0, ~1e17}; a disagreement of t or p "
